@@ -139,6 +139,7 @@ RangeStart(s, heap, flags) ==
     [] s.kind = "string" -> [idx |-> 0, pairs |-> RangeString(heap.str)]
     [] s.kind = "int"    -> [idx |-> 0, n |-> heap.n]
     [] s.kind = "int0"   -> [idx |-> 0, n |-> heap.n0]
+    [] s.kind = "intc"   -> [idx |-> 0, n |-> 3]     \* for kk64 = range 3: an untyped constant takes the type of the iteration variable (int64)
     [] s.kind = "map1"   -> [idx |-> 0, pairs |-> heap.m1]
     [] s.kind \in {"chan", "iter"} -> [idx |-> 0]
 \* next pair: [ok, k, v]
@@ -152,7 +153,7 @@ RangeNext(s, st, heap, flags) ==
                             ELSE [ok |-> FALSE, k |-> 0, v |-> 0]
     [] s.kind = "parray" -> IF st.idx < Len(heap.arr) THEN [ok |-> TRUE, k |-> st.idx, v |-> heap.arr[st.idx + 1]] ELSE [ok |-> FALSE, k |-> 0, v |-> 0]
     [] s.kind = "string" -> IF st.idx < Len(st.pairs) THEN [ok |-> TRUE, k |-> st.pairs[st.idx + 1][1], v |-> st.pairs[st.idx + 1][2]] ELSE [ok |-> FALSE, k |-> 0, v |-> 0]
-    [] s.kind \in {"int", "int0"} -> IF st.idx < st.n THEN [ok |-> TRUE, k |-> st.idx, v |-> 0] ELSE [ok |-> FALSE, k |-> 0, v |-> 0]
+    [] s.kind \in {"int", "int0", "intc"} -> IF st.idx < st.n THEN [ok |-> TRUE, k |-> st.idx, v |-> 0] ELSE [ok |-> FALSE, k |-> 0, v |-> 0]
     [] s.kind = "map1"   -> IF st.idx < Len(st.pairs) THEN [ok |-> TRUE, k |-> st.pairs[st.idx + 1][1], v |-> st.pairs[st.idx + 1][2]] ELSE [ok |-> FALSE, k |-> 0, v |-> 0]
     [] s.kind = "chan"   -> IF st.idx < Len(heap.ch) THEN [ok |-> TRUE, k |-> heap.ch[st.idx + 1], v |-> 0] ELSE [ok |-> FALSE, k |-> 0, v |-> 0]
 \* mutations of the collections performed by loop bodies
